@@ -589,6 +589,21 @@ func graphOf(n int, mask uint64, desc bool, group string) *spec {
 	return sp
 }
 
+// the same with every needs list in a random order
+func graphShuffled(r *hx.Rng, n int, mask uint64, group string) *spec {
+	sp := graphOf(n, mask, false, group)
+	for i := range sp.jobs {
+		ns := sp.jobs[i].needs
+		p := r.Perm(len(ns))
+		sh := make([]string, len(ns))
+		for k, x := range p {
+			sh[k] = ns[x]
+		}
+		sp.jobs[i].needs = sh
+	}
+	return sp
+}
+
 func seqs(alpha []string, maxLen int) [][]string {
 	out := [][]string{{}}
 	level := [][]string{{}}
@@ -802,7 +817,7 @@ func main() {
 	hx.Must(os.MkdirAll(*out, 0o755))
 	thorough := *tier == "thorough"
 	sum := hx.NewSummary("C18")
-	sum.Rule = "needs graphs: every edge set (self loops included) over 1-4 jobs in ascending and descending order of the needs entries, references in both spellings; 3 jobs with every needs list up to a length bound over {a, A, b, c, x (dangling), empty}; 5-job graphs (random edge sets of random density; thorough: half of them a bijective stride through all 2^25 edge sets); random graphs of 6-40 jobs (DAG, one embedded simple cycle, dense) with dangling/duplicate/case-variant references. non-trivial = the rule reports a missing reference or a cycle; distinct = distinct workflow text"
+	sum.Rule = "needs graphs: every edge set (self loops included) over 1-4 jobs in ascending and descending order of the needs entries, references in both spellings; 3 jobs with every needs list up to a length bound over {a, A, b, c, x (dangling), empty}; 5-job graphs (random edge sets of random density; thorough: half of them a bijective stride through all 2^25 edge sets); 4- and 5-job graphs with the needs entries in random order; random graphs of 6-40 jobs (DAG, one embedded simple cycle, dense) with dangling/duplicate/case-variant references. non-trivial = the rule reports a missing reference or a cycle; distinct = distinct workflow text"
 	hangReport = func(src string) {
 		sum.OracleFails = append(sum.OracleFails, failure{What: "the rule does not terminate on this input within 20 s", Key: "hang:" + src, Workflow: src})
 		sum.Write(filepath.Join(*out, "summary.json"))
@@ -961,6 +976,25 @@ func main() {
 		}
 	}
 	process(five, reps, 1201)
+
+	// (d') 4 and 5 jobs, needs entries in random order
+	nsh := 12000
+	if thorough {
+		nsh = 300000
+	}
+	var shuf []*spec
+	for i := 0; i < nsh; i++ {
+		n := 4 + i%2
+		var mask uint64
+		d := 1 + r.Intn(n*n/2)
+		for b := 0; b < n*n; b++ {
+			if r.Chance(d, n*n) {
+				mask |= 1 << uint(b)
+			}
+		}
+		shuf = append(shuf, graphShuffled(r, n, mask, "shuffled-needs"))
+	}
+	process(shuf, reps, 1499)
 
 	// (e) random graphs of 6..40 jobs
 	nbig := 400
